@@ -388,6 +388,7 @@ func runC07(c *Ctx, r *Report) {
 	c06r6(c, r) // what is printed is what was read: no alias of an item's runes is edited in place
 	c15r7(c, r) // a selection made before a reload must not print records of the old list
 	c13r6(c, r) // selected items are held by pointer: Snapshot must not shift items inside a shared chunk
+	c07r6(c, r)
 }
 
 // c07r5: the --with-nth builder keeps the record (shared with C06).
